@@ -44,7 +44,7 @@ class Grid(col.MutableSequence):
         self.metadata = MetadataObject(validate_fn=self._detect_or_validate)
 
         # The columns
-        self.column = SortableDict()
+        self.column = SortableDict(validate_fn=self._detect_or_validate_column)
 
         # Rows
         self._row = []
@@ -303,6 +303,15 @@ class Grid(col.MutableSequence):
                 or isinstance(val, Grid):
             # Project Haystack 3.0 type.
             self._assert_version(VER_3_0)
+
+    def _detect_or_validate_column(self, col_meta):
+        '''
+        Detect or validate the version against the metadata stored for a
+        column.
+        '''
+        if isinstance(col_meta, dict) or isinstance(col_meta, SortableDict):
+            for val in col_meta.values():
+                self._detect_or_validate(val)
 
     def _assert_version(self, version):
         '''
